@@ -259,7 +259,7 @@ def oracle(ctx, n_struct):
 
 def run(ctx):
     TK.stage(ctx, GEN_FILES, THEOREMS)
-    evals = oracle(ctx, 1500 if ctx.thorough() else 150)
+    evals = oracle(ctx, 8000 if ctx.thorough() else 150)
     ctx.cov['evaluations'] = evals
     ctx.cov['distinct_nontrivial'] = evals
     ctx.cov['rule'] = ('random cells of all seven crystal systems (non-degenerate: D > 0.1), atoms with random coordinates, '
